@@ -115,6 +115,10 @@ KIND = {
 NUM_RE = re.compile(r'[+-]?(?:[0-9]+(?:\.[0-9]*)?|\.[0-9]+)\Z', re.ASCII)
 ISO_RE = re.compile(r'([0-9]{4})-([0-9]{2})-([0-9]{2})\Z', re.ASCII)
 
+# delivery-channel differential (core.Env): of every 2 evaluations that bind variables, one is repeated with the
+# values handed in by the cell/range listeners and one with the values returned by custom functions; outcomes must agree
+CHANNELS = 2
+
 BOUNDS = {
     'quick': '26 scalars (8 ints, 4 decimals, 2 logicals, blank, 3 numeric texts, 2 other texts, 5 date(-time)s '
              '>= 1 Mar 1900, 1 ISO date text): all 676 ordered pairs x {+,-,*,/} x routes {variable, cell, '
